@@ -151,6 +151,9 @@ class DirectionalSobolevSpace(SobolevSpace):
     def __eq__(self, other):
         """Check equality."""
         if isinstance(other, DirectionalSobolevSpace):
+            if len(self._orders) != len(other._orders) and len(set(other._orders)) == 1:
+                # other is an isotropic space H^k: compare with H^k (as for the named spaces)
+                return self == other._isotropic(other._orders[0])
             return self._orders == other._orders
         return all(self[i] == other for i in self._spatial_indices)
 
@@ -162,7 +165,10 @@ class DirectionalSobolevSpace(SobolevSpace):
         """In common with intrinsic Python sets, < indicates "is a proper subset of."""
         if isinstance(other, DirectionalSobolevSpace):
             if self._spatial_indices != other._spatial_indices:
-                return False
+                # Spaces over different numbers of directions compare
+                # through the isotropic spaces between them, as they
+                # do with the named spaces
+                return self != other and self._isotropic(min(self._orders)) <= other
             return self._orders != other._orders and all(
                 self._orders[i] >= other._orders[i] for i in self._spatial_indices
             )
